@@ -33,27 +33,35 @@ def main():
     assert os.path.exists(patch), patch
     env = dict(os.environ, PYTHONPATH=wt, MPLBACKEND="Agg")
     meta = {"property": prop, "seed": k, "ran": []}
+    mode = "confirm" if "--confirm-only" in sys.argv else ("check" if "--check-only" in sys.argv else "both")
+    cpath = f"{src}/confirm.json"
     ptxt = open(patch).read()
     touched = sorted({l[6:].strip() for l in ptxt.splitlines() if l.startswith("+++ b/")})
     meta["files_touched"] = touched
-    # --- 1. scratch worktree
-    sh("git checkout -- . ", cwd=wt)
-    rc, out = sh(f"git apply {patch}", cwd=wt)
-    assert rc == 0, out
-    tests = "tests/lie tests/test_symbolic.py"
-    if any(("estimate" in f or "util.py" in f or "/sim/" in f or "symbolic.py" in f or "group_so3" in f) for f in touched):
-        tests += " tests/estimate"
-    rc_t, out_t = sh(f"/venv/bin/python -m pytest -q -p no:cacheprovider --timeout=900 -q {tests} 2>&1 | tail -5", cwd=wt, env=env)
-    failed = [l for l in out_t.splitlines() if l.startswith("FAILED") and "test_replay" not in l]
-    meta["tests_with_patch"] = {"cmd": f"pytest {tests}", "failed": failed, "tail": out_t[-300:]}
-    rc_d, out_d = sh(f"/venv/bin/python {src}/demo.py", cwd=wt, env=env, timeout=900)
-    meta["demo_with_patch"] = {"rc": rc_d, "tail": out_d[-400:]}
-    sh("git checkout -- .", cwd=wt)
-    rc_c, out_c = sh(f"/venv/bin/python {src}/demo.py", cwd=wt, env=env, timeout=900)
-    meta["demo_clean"] = {"rc": rc_c, "tail": out_c[-200:]}
-    confirmed = (not failed) and rc_d != 0 and rc_c == 0
-    meta["confirmed"] = confirmed
-    print(f"[{prop}-{k}] tests failed with patch: {failed}; demo with patch rc={rc_d}; demo clean rc={rc_c}; confirmed={confirmed}")
+    if mode == "check":
+        meta.update(json.load(open(cpath)))
+        confirmed = meta["confirmed"]
+    else:
+        sh("git checkout -- . ", cwd=wt)
+        rc, out = sh(f"git apply {patch}", cwd=wt)
+        assert rc == 0, out
+        tests = "tests/lie tests/test_symbolic.py"
+        if any(("estimate" in f or "util.py" in f or "/sim/" in f or "symbolic.py" in f or "group_so3" in f or "codegen" in f) for f in touched):
+            tests += " tests/estimate"
+        rc_t, out_t = sh(f"/venv/bin/python -m pytest -q -p no:cacheprovider --timeout=900 -q {tests} 2>&1 | tail -5", cwd=wt, env=env)
+        failed = [l for l in out_t.splitlines() if l.startswith("FAILED") and "test_replay" not in l]
+        meta["tests_with_patch"] = {"cmd": f"pytest {tests}", "failed": failed, "tail": out_t[-300:]}
+        rc_d, out_d = sh(f"/venv/bin/python {src}/demo.py", cwd=wt, env=env, timeout=1200)
+        meta["demo_with_patch"] = {"rc": rc_d, "tail": out_d[-400:]}
+        sh("git checkout -- .", cwd=wt)
+        rc_c, out_c = sh(f"/venv/bin/python {src}/demo.py", cwd=wt, env=env, timeout=1200)
+        meta["demo_clean"] = {"rc": rc_c, "tail": out_c[-200:]}
+        confirmed = (not failed) and rc_d != 0 and rc_c == 0
+        meta["confirmed"] = confirmed
+        print(f"[{prop}-{k}] tests failed with patch: {failed}; demo with patch rc={rc_d}; demo clean rc={rc_c}; confirmed={confirmed}")
+        json.dump({k_: meta[k_] for k_ in ("tests_with_patch", "demo_with_patch", "demo_clean", "confirmed")}, open(cpath, "w"))
+        if mode == "confirm":
+            return 0
     # --- 2. the checks against /repo with the patch applied
     det = {}
     rc, out = sh("git status --porcelain", cwd="/repo")
